@@ -3064,7 +3064,7 @@ func loopVarVal(n *node) {
 }
 
 func loopVarFor(n *node) {
-	ixn := n.anc.anc.child[0].child[0]
+	ixn := n.anc.anc.child[0].child[childPos(n)]
 	next := getExec(n.tnext)
 	n.exec = func(f *frame) bltn {
 		fv := f.data[ixn.findex]
@@ -3078,11 +3078,18 @@ func loopVarFor(n *node) {
 // loopVarBack sets the loop variable of a for statement from the per-iteration copy used
 // in the body n, so that the post statement sees the assignments made by the body.
 func loopVarBack(n *node) {
-	ixn := n.anc.child[0].child[0]
-	lvn := n.child[0]
+	var ix, lv []int // locations of the loop variables, and of their copies
+	for i, ixn := range forInitVars(n.anc) {
+		if lvn := n.child[i]; ixn.ident != "_" && lvn.ident == ixn.ident {
+			ix = append(ix, ixn.findex)
+			lv = append(lv, lvn.findex)
+		}
+	}
 	next := getExec(n.tnext)
 	n.exec = func(f *frame) bltn {
-		f.data[ixn.findex].Set(f.data[lvn.findex])
+		for i := range ix {
+			f.data[ix[i]].Set(f.data[lv[i]])
+		}
 		return next
 	}
 }
